@@ -109,9 +109,21 @@ fn drive<S: Sc, T: Sc, const N: usize>(
     if good.is_empty() {
         return;
     }
-    for i in 0..N {
+    // two backgrounds for the probe value: convertible sample values, and the 0 / 1 pattern of an
+    // identity matrix (unit vector), i.e. the exactly-affine, exactly-diagonal values real matrices have
+    let side = (1..=4).find(|s| s * s == N).unwrap_or(N);
+    let (zero, one) = (<S as NumCast>::from(0u8), <S as NumCast>::from(1u8));
+    for pass in 0..2 {
+      if pass == 1 && (zero.is_none() || one.is_none() || <T as NumCast>::from(1u8).is_none()) {
+        continue;
+      }
+      for i in 0..N {
         for (k, v) in samples.iter().enumerate() {
-            let mut c: [S; N] = std::array::from_fn(|j| good[(j * 7 + k + i) % good.len()]);
+            let mut c: [S; N] = if pass == 0 {
+                std::array::from_fn(|j| good[(j * 7 + k + i) % good.len()])
+            } else {
+                std::array::from_fn(|j| if N == side || j % (side + 1) == 0 { if N == side && j != 0 { zero.unwrap() } else { one.unwrap() } } else { zero.unwrap() })
+            };
             c[i] = *v;
             let scalar: Vec<Option<T>> = c.iter().map(|x| <T as NumCast>::from(*x)).collect();
             let exp: Option<Vec<u64>> = if scalar.iter().all(|s| s.is_some()) {
@@ -141,6 +153,7 @@ fn drive<S: Sc, T: Sc, const N: usize>(
                 ));
             }
         }
+      }
     }
 }
 
